@@ -51,20 +51,33 @@ func fragmentFileName(key string) string {
 		return encoded
 	}
 
-	// Fragment the encoded string
+	// Fragment the encoded string. Every fragment but the last names a directory and
+	// is marked with dirMarker, which is not in the base64 alphabet: a directory can
+	// then never have the name another key needs for its file (e.g. a key of 36 bytes,
+	// whose name is exactly one fragment long, and a long key starting with it).
 	var parts []string
-	for i := 0; i < len(encoded); i += fragmentSize {
-		end := min(i+fragmentSize, len(encoded))
-		parts = append(parts, encoded[i:end])
+	const size = fragmentSize - len(dirMarker) // marked fragments stay within fragmentSize
+	for i := 0; i < len(encoded); i += size {
+		end := min(i+size, len(encoded))
+		part := encoded[i:end]
+		if end < len(encoded) {
+			part += dirMarker
+		}
+		parts = append(parts, part)
 	}
 	return filepath.Join(parts...)
 }
+
+// dirMarker is appended to the directory fragments of a fragmented file name.
+const dirMarker = "="
 
 func fragmentingFileNameKeyer() fileNameKeyer {
 	return fileNameKeyerFunc(fragmentedFileNameToKey)
 }
 
 var filepathSeparatorReplacer = strings.NewReplacer(
+	dirMarker+string(filepath.Separator),
+	"",
 	string(filepath.Separator),
 	"",
 )
